@@ -1,7 +1,21 @@
 """Target registry for vf (one entry per target binary)."""
 
+import glob, json, os
+
 def register(CHECKS, T):
-    CHECKS["C18"] = [T("c18_hashmodel", "targets/c18_hashmodel.cpp", kind="fuzz", lib=True, quick_cases=20000, thorough_s=600, max_len=256)]
+    """Every targets/*.reg.json registers one target binary:
+    {"property":"C18","name":"c18_hashmodel","src":"targets/c18_hashmodel.cpp","kind":"fuzz","lib":true,
+     "quick_cases":20000,"thorough_s":600,"max_len":256,"defs":[],"assumptions":[...]}"""
+    root = os.path.dirname(os.path.abspath(__file__))
+    for path in sorted(glob.glob(os.path.join(root, "targets", "*.reg.json"))):
+        r = json.load(open(path))
+        pid = r.pop("property")
+        for a in r.pop("assumptions", []):
+            ASSUMPTIONS.setdefault(pid, [])
+            if a not in ASSUMPTIONS[pid]:
+                ASSUMPTIONS[pid].append(a)
+        name, src = r.pop("name"), r.pop("src")
+        CHECKS.setdefault(pid, []).append(T(name, src, **r))
 
 ASSUMPTIONS = {
     "C01": ["queue flag pairing rules from bounded_queue.h are respected by the generator (one mode per queue; CONCURRENT=false only on an end a single thread touches)",
